@@ -722,6 +722,9 @@ class Emitter:
             recv, name, args = e[1], e[2], e[3]
             # whole-expression overrides keyed by a normalised text
             txt = self.rust_text(e)
+            arm = cfg.get("arm_exprs", {}).get(getattr(self, "arm_ctx", None), {})
+            if txt in arm:
+                return arm[txt]
             if txt in cfg.get("exprs", {}):
                 return cfg["exprs"][txt]
             if self.is_self(recv):
@@ -810,6 +813,10 @@ class Emitter:
             return "(" + self.match_value(e, lambda body: self.block_value(body)) + ")"
         if k == "tuple":
             return "(" + ", ".join(self.ex(x) for x in e[1]) + ")"
+        if k == "struct" and self.path_text(e[1]) in cfg.get("struct_ctors", {}):
+            ctor, order = cfg["struct_ctors"][self.path_text(e[1])]
+            d = dict(e[2])
+            return "(" + ctor + "".join(" " + self.atom(d[f]) for f in order) + ")"
         if k == "struct":
             sname = e[1][-1]
             order = cfg.get("struct_as", {}).get(sname)
@@ -872,6 +879,9 @@ class Emitter:
                 raise Untranslatable("struct pattern not mapped: " + pt)
             ctor, order = sp[pt]
             d = dict(p[2])
+            if self.cfg.get("mutself"):
+                # every field is bound (under its own name when the source ignores it): the arm rebuilds `self`
+                return "(" + ctor + "".join(" " + (self.pat(d[f]) if f in d and d[f][0] != "pwild" else self.v(f)) for f in order) + ")"
             return "(" + ctor + "".join(" " + (self.pat(d[f]) if f in d else "_") for f in order) + ")"
         if p[0] == "ppath":
             pt = self.path_text(p[1])
@@ -1001,6 +1011,8 @@ class Emitter:
             if e[0] == "macro":
                 if e[1] in ("debug_assert", "debug_assert_eq", "debug_assert_ne", "trace", "debug", "println") or e[1] in self.cfg.get("ignore_macros", []):
                     return cont(scope)
+                if e[1] in ("panic", "unreachable", "todo", "unimplemented") and self.cfg.get("partial"):
+                    return "none"
                 raise Untranslatable("macro " + e[1])
             if e[0] == "return":
                 return self.ret(self.ex(e[1])) if e[1] is not None else self.ret("()")
@@ -1024,7 +1036,7 @@ class Emitter:
                 else:
                     el = self.stmts(e[4][1] if e[4][0] == "block" else [("expr", e[4], semi)], (lambda sc: cont(sc)) if (rest or k or semi) else None, scope)
                 return f"match {self.ex(e[2])} with\n| {self.pat(e[1])} =>\n{indent(th)}\n| _ =>\n{indent(el)}"
-            if e[0] == "match" and (rest or k or semi or self.has_loop or self.diverges(e) or self.cfg.get("writes") or self.cfg.get("mutself")):
+            if e[0] == "match" and (rest or k or semi or self.has_loop or self.diverges(e) or self.cfg.get("writes") or self.cfg.get("mutself") or self.cfg.get("block_match")):
                 lines = [f"match {self.ex(e[1])} with"]
                 for pats, guard, body in e[2]:
                     if guard is not None:
@@ -1036,7 +1048,17 @@ class Emitter:
                             and "*self =" not in self.rust_stmts_text(b):
                         tmpl = ms["arm_results"][self.path_text(pats[0][1])]
                         b = list(b) + [("rawlet", ms["var"], self.tmpl(tmpl, None, [self.v(n) for n in names]))]
+                    if ms and len(pats) == 1 and pats[0][0] == "pstruct" and self.path_text(pats[0][1]) in self.cfg.get("struct_patterns", {}) \
+                            and "*self =" not in self.rust_stmts_text(b):
+                        ctor, order = self.cfg["struct_patterns"][self.path_text(pats[0][1])]
+                        d = dict(pats[0][2])
+                        vars_ = [(self.pat(d[f]) if f in d and d[f][0] == "pvar" else self.v(f)) for f in order]
+                        b = list(b) + [("rawlet", ms["var"], "(" + ctor + "".join(" " + x for x in vars_) + ")")]
+                    saved_arm = getattr(self, "arm_ctx", None)
+                    if pats[0][0] in ("ppath", "pstruct"):
+                        self.arm_ctx = self.path_text(pats[0][1])
                     text = self.stmts(b, (lambda sc: cont(sc)) if (rest or k or semi) else None, scope + names, tail_kv)
+                    self.arm_ctx = saved_arm
                     lines.append("| " + " | ".join(self.pat(p_) for p_ in pats) + " =>\n" + indent(text))
                 return "\n".join(lines)
             if e[0] == "block":
@@ -1053,6 +1075,11 @@ class Emitter:
                     return self.ret(self.ex(e))
                 # value discarded? (a tail expression inside a loop body / branch followed by more code)
                 return cont(scope)
+            if e[0] == "mcall" and e[1][0] == "path" and len(e[1][1]) == 1 and (e[1][1][0], e[2]) in self.cfg.get("mut_methods", {}):
+                var = self.v(e[1][1][0])
+                f = self.cfg["mut_methods"][(e[1][1][0], e[2])]
+                args = " ".join(self.atom(a) for a in e[3])
+                return f"let {var} := {f} {var} {args}\n{cont(scope)}"
             if e[0] in ("mcall", "call") and self.rust_text(e) in self.cfg.get("effects", {}):
                 eff = self.cfg["effects"][self.rust_text(e)]
                 return f"{eff}\n{cont(scope)}"
@@ -1326,7 +1353,7 @@ def translate(name, body_text, cfg):
     """Lean text of `def <name> …` (with its loop functions) for the Rust function body `body_text`."""
     ast = parse_body(body_text)
     em = Emitter(name, cfg)
-    em.has_loop = contains_loop(ast) and not cfg.get("no_loops")
+    em.has_loop = (contains_loop(ast) and not cfg.get("no_loops")) or bool(cfg.get("partial"))
     params = cfg["params"]
     sig = (cfg.get("implicit", "") + " " if cfg.get("implicit") else "") + " ".join(f"({p} : {t})" for p, t in params)
     body = em.stmts(ast[1], None, list(cfg.get("prelude_scope", [])))
@@ -1334,7 +1361,7 @@ def translate(name, body_text, cfg):
         body = cfg["prelude"] + "\n" + body
     ret = cfg["ret"]
     if em.has_loop:
-        fuel_sig = "" if (any(p == "fuel" for p, _ in params) or "fuel" in cfg) else " (fuel : Nat)"
+        fuel_sig = "" if (any(p == "fuel" for p, _ in params) or "fuel" in cfg or not (contains_loop(ast) and not cfg.get("no_loops"))) else " (fuel : Nat)"
         main = f"def {name} {sig}{fuel_sig} : Option ({ret}) :=\n{indent(body)}\n"
     else:
         main = f"def {name} {sig} : {ret} :=\n{indent(body)}\n"
